@@ -220,6 +220,10 @@ class Daemon(object):
                 ln = self._readline(deadline)
                 if ln == marker:
                     return out
+                if ln.endswith(marker) and marker.startswith("#verif sync"):
+                    # the daemon wrote something without a terminating newline; the marker got glued to it
+                    out.append("#unterminated " + ln[:-len(marker)])
+                    return out
                 out.append(ln)
         except (Died, Hang):
             self.pending_lines = out
@@ -293,6 +297,11 @@ class Daemon(object):
         self.buf = b""
         for ln in text.split("\n")[:-1]:
             if ln == "#verif sync %d" % k:
+                outs.append(cur)
+                cur = []
+                k += 1
+            elif ln.endswith("#verif sync %d" % k):
+                cur.append("#unterminated " + ln[:-len("#verif sync %d" % k)])
                 outs.append(cur)
                 cur = []
                 k += 1
